@@ -29,6 +29,7 @@ EXPLANATION = (
     ' R1 also checks the factories the classification relies on: Inverter._read_command / _write_command / _write_multi_command return exactly self._protocol.<same factory>(<their arguments>), and the protocol factories return one fresh construction of the matching command class from self._comm_addr and their own arguments.'
     " (R4, shared with C08.R3) the tests that recognise 'register does not exist' compare against a reason text the validators produce, so a refused setting becomes an unknown id."
     ' R4 also requires _read_sensor to pop the refused setting from self._settings.'
+    ' (R5, shared with C04.R11) what a read-only call transmits, first time and on every retry, is the request it built: send_request passes its own parameter on.'
 )
 
 READ_ONLY = ("read_device_info", "read_runtime_data", "read_sensor", "read_setting", "read_settings_data", "get_grid_export_limit",
@@ -213,6 +214,9 @@ def check(ctx: Ctx, rep: Report):
     rep.rule("C18.R4", "a setting the inverter reports as non-existent becomes an unknown id: the tests that recognise that refusal compare against a reason text the validators produce (shared with C08.R3)", 4)
     from .c08 import message_comparisons
     message_comparisons(ctx, rep, "C18.R4")
+    rep.rule("C18.R5", "what a read-only call transmits - first time and on every retry - is the request it built itself: send_request passes its own parameter on, never the request left on the protocol object by an earlier call (shared with C04.R11)", 2)
+    from .proto import retry_resends_own_command
+    retry_resends_own_command(ctx, rep, "C18.R5")
     # ... and on that refusal the setting is dropped from self._settings (so a later write of it is an unknown id)
     from ..famstate import _illegal_choice
     for fam in ("ET", "DT"):
